@@ -48,13 +48,17 @@ class Transpiled:
 
 
 def transpile(src: str, timeout_s: float = 5.0) -> Transpiled:
-    """Run the real parse()+emit() on ``src`` under a wall-clock alarm."""
+    """Run the real parse()+emit() on ``src`` under a CPU-time limit."""
     from Reduino.transpile.emitter import emit
     from Reduino.transpile.parser import parse
 
     t0 = time.time()
+    # the limit is on the CPU time of the transpilation (a loaded machine must not turn a slow run into a verdict); the
+    # real-time timer is only a distant backstop
     old = signal.signal(signal.SIGALRM, _alarm_handler)
-    signal.setitimer(signal.ITIMER_REAL, timeout_s)
+    old_prof = signal.signal(signal.SIGPROF, _alarm_handler)
+    signal.setitimer(signal.ITIMER_PROF, timeout_s)
+    signal.setitimer(signal.ITIMER_REAL, timeout_s * 20)
     try:
         try:
             cpp = emit(parse(src))
@@ -73,8 +77,10 @@ def transpile(src: str, timeout_s: float = 5.0) -> Transpiled:
         except Exception as exc:  # noqa: BLE001 - every other exception type is an internal error
             return Transpiled("crash", error=str(exc)[:300], error_type=type(exc).__name__, wall=time.time() - t0)
     finally:
+        signal.setitimer(signal.ITIMER_PROF, 0)
         signal.setitimer(signal.ITIMER_REAL, 0)
         signal.signal(signal.SIGALRM, old)
+        signal.signal(signal.SIGPROF, old_prof)
 
 
 # ----------------------------------------------------------------------------------------------
@@ -343,23 +349,48 @@ def run_program(batch: Batch, pos: int, runs: Sequence[dict], timeout_s: float =
     """Execute program ``pos`` of the batch for every input script in ``runs``."""
     if batch.binary is None or pos not in batch.index:
         raise KeyError(pos)
-    inp = batch.workdir / f"in{pos}.txt"
-    inp.write_text(render_inputs(runs), encoding="utf-8")
     env = dict(os.environ)
     if batch.sanitize:
         env["ASAN_OPTIONS"] = "detect_leaks=0:abort_on_error=0:log_path=stdout:allocator_may_return_null=1:exitcode=77"
         env["UBSAN_OPTIONS"] = "log_path=stdout:print_stacktrace=0:exitcode=78:halt_on_error=1"
-    try:
-        proc = subprocess.run(
-            [str(batch.binary), str(batch.index[pos]), str(inp)],
-            capture_output=True,
-            timeout=timeout_s,
-            env=env,
-        )
-        text = proc.stdout.decode("utf-8", errors="replace")
-    except subprocess.TimeoutExpired as exc:
-        text = (exc.stdout or b"").decode("utf-8", errors="replace")
-    results = parse_output(text)
+    results: List[DeviceRun] = []
+    # The wall-clock limit covers one invocation (all runs of the program, one forked child each).  On a loaded machine a
+    # long list of runs may not fit: that is the harness' problem, not the firmware's - the runs that did not get their
+    # turn are executed by a further invocation (as long as each invocation completes at least one run).
+    attempts_without_progress = 0
+    while len(results) < len(runs):
+        todo = runs[len(results):]
+        inp = batch.workdir / f"in{pos}.txt"
+        inp.write_text(render_inputs(todo), encoding="utf-8")
+        timed_out = False
+        try:
+            proc = subprocess.run(
+                [str(batch.binary), str(batch.index[pos]), str(inp)],
+                capture_output=True,
+                timeout=max(timeout_s, 0.05 * len(todo)),
+                env=env,
+            )
+            text = proc.stdout.decode("utf-8", errors="replace")
+        except subprocess.TimeoutExpired as exc:
+            text = (exc.stdout or b"").decode("utf-8", errors="replace")
+            timed_out = True
+        part = parse_output(text)
+        if timed_out:
+            # the run that was cut off (no exit marker) and everything after it did not really execute
+            while part and part[-1].exit_code == -1:
+                part.pop()
+            if not part:
+                attempts_without_progress += 1
+                if attempts_without_progress >= 2:
+                    break
+                continue
+            attempts_without_progress = 0
+            results.extend(part[: len(todo)])
+            continue
+        results.extend(part[: len(todo)])
+        break
+    for k, run in enumerate(results):
+        run.label = str(k)
     while len(results) < len(runs):
         results.append(DeviceRun(label=str(len(results)), exit_code=-2, faults=["X missing_run"]))
     return results
